@@ -258,7 +258,9 @@ func runLock(p *Prog, lc *LockClass) *lockResult {
 					continue
 				}
 				acc := lockAccess{Fn: f, Instr: in, Key: k.String(), Held: a.stateAt[in], Write: isStore}
-				if fresh {
+				if a.dead(f) {
+					acc.Exempt = "unreachable: method of an unexported type with no call site and not invocable through an interface"
+				} else if fresh {
 					acc.Exempt = "object allocated in this function (constructor)"
 				} else if a.startup[f] && !a.afterGo(f, in) {
 					acc.Exempt = "single-threaded start-up (reachable only from Start, before any go statement)"
@@ -330,6 +332,22 @@ func (a *lockAnalyzer) afterGo(f *ssa.Function, in ssa.Instruction) bool {
 	return found
 }
 
+// dead: a top-level function/method that cannot be called: unexported (or method of an
+// unexported type), no static call sites, never used as a value, not invocable dynamically.
+func (a *lockAnalyzer) dead(f *ssa.Function) bool {
+	r := rootFn(f)
+	if a.escapes[r] || a.dynName[r.Name()] || len(a.sites[r]) > 0 || r.Name() == "init" {
+		return false
+	}
+	if obj := r.Object(); obj != nil && obj.Exported() {
+		rn := recvNamedOfFn(r)
+		if rn == nil || rn.Obj().Exported() {
+			return false
+		}
+	}
+	return true
+}
+
 func (a *lockAnalyzer) candidateHelper(f *ssa.Function) bool {
 	if f.Parent() != nil {
 		return true // anon: computed from use
@@ -338,7 +356,13 @@ func (a *lockAnalyzer) candidateHelper(f *ssa.Function) bool {
 		return false
 	}
 	if obj := f.Object(); obj != nil && obj.Exported() {
-		return false
+		// an exported name matters only when the receiver type is exported too (callable from
+		// other packages); methods of unexported types are callable only from this package,
+		// statically (exact) or through an interface (dynName).
+		rn := recvNamedOfFn(f)
+		if rn == nil || rn.Obj().Exported() {
+			return false
+		}
 	}
 	if f.Name() == "init" {
 		return false
